@@ -15,6 +15,24 @@ from . import sym
 from .source import AnalysisError
 
 IGNORED_CALLS = {'print'}
+LOG_RECEIVERS = {'logging', 'logger', 'log', '_logger', '_log', 'LOG',
+                 'LOGGER'}
+LOG_METHODS = {'debug', 'info', 'warning', 'warn', 'error', 'exception',
+               'critical', 'log'}
+
+
+def _is_ignored_call(k):
+    """print(...) and logging calls: diagnostics, not behaviour."""
+    if k[0] != 'call':
+        return False
+    name = sym.Evaluator()._call_name(k[1])
+    if name in IGNORED_CALLS:
+        return True
+    if name and '.' in name:
+        recv, meth = name.rsplit('.', 1)
+        if meth in LOG_METHODS and recv.split('.')[-1] in LOG_RECEIVERS:
+            return True
+    return False
 
 
 MESSAGE_CALLS = {'warn', 'warnings.warn', 'stream.error', 'self.error'}
@@ -69,8 +87,7 @@ def signature(path, keep_raise_args=False, ignore_attr_stores=(),
             effects.append(('store', e[1], v))
         elif e[0] == 'expr':
             k = e[1]
-            if not strict and k[0] == 'call' and sym.Evaluator(
-                    )._call_name(k[1]) in IGNORED_CALLS:
+            if not strict and _is_ignored_call(k):
                 continue
             if k[0] in ('const', 'num'):
                 continue
@@ -129,8 +146,7 @@ def _loop_sig(body_events, strict=False):
                 ev.append(('store', e[1], e[2]))
             elif e[0] == 'expr':
                 k = e[1]
-                if not strict and k[0] == 'call' and sym.Evaluator(
-                        )._call_name(k[1]) in IGNORED_CALLS:
+                if not strict and _is_ignored_call(k):
                     continue
                 if k[0] in ('const', 'num'):
                     continue
